@@ -288,7 +288,7 @@ func runC11(c *Ctx) {
 	for def := ref.Mode(0); def < ref.NumModes; def++ {
 		c.Parallel("scale", def, func(sh *mon.Shard, r *gen.RNG) {
 			j := &scaleJudge{ctx: c, sh: sh}
-			n := c.N(8000, 120000)
+			n := c.N(30000, 250000)
 			for i := 0; i < n; i++ {
 				s, e := genNewArgs(r)
 				j.judgeNew(s, e)
